@@ -152,8 +152,26 @@ fn known_match<'a>(known: &'a [Value], property: &str, v: &Value) -> Option<&'a 
 }
 
 /// Writes evidence, replay files; prints the protocol lines; returns the process exit code.
+/// Scratch directories of worker processes that no longer exist (killed by the watchdog's
+/// circuit breaker, crashed on purpose during crash hunting ...) are removed at the end of a check.
+fn sweep_stale_dirs() {
+    let Ok(rd) = std::fs::read_dir(std::env::temp_dir()) else { return };
+    for e in rd.flatten() {
+        let name = e.file_name().to_string_lossy().into_owned();
+        for prefix in ["verif-cwd-", "verif-real-", "verif-checked-"] {
+            if let Some(rest) = name.strip_prefix(prefix) {
+                let pid = rest.split('-').last().unwrap_or("");
+                if !pid.is_empty() && pid.chars().all(|c| c.is_ascii_digit()) && !std::path::Path::new(&format!("/proc/{pid}")).exists() {
+                    let _ = std::fs::remove_dir_all(e.path());
+                }
+            }
+        }
+    }
+}
+
 pub fn finish(mut report: Report) -> i32 {
     checked_phase(&mut report);
+    sweep_stale_dirs();
     let dir = out_dir();
     let _ = std::fs::create_dir_all(format!("{dir}/evidence"));
     let _ = std::fs::create_dir_all(format!("{dir}/replays"));
